@@ -265,6 +265,15 @@ func (m msgServer) UpdateParams(
 	}
 
 	ctx := sdk.UnwrapSDKContext(goCtx)
+	// the issue fee must be denominated in a registered symbol: InitGenesis asserts it
+	// (a genesis exported after naming an unregistered one could not be imported)
+	if !m.k.HasSymbol(ctx, msg.Params.IssueTokenBaseFee.Denom) {
+		return nil, errorsmod.Wrapf(
+			types.ErrTokenNotExists,
+			"issue token base fee: %s",
+			msg.Params.IssueTokenBaseFee.Denom,
+		)
+	}
 	if err := m.k.SetParams(ctx, msg.Params); err != nil {
 		return nil, err
 	}
